@@ -106,8 +106,10 @@ class BaseMessage:
 class SysexData(tuple):
     """Special kind of tuple accepts and converts any sequence in +=."""
     def __iadd__(self, other):
+        # Convert first so that iterators are only consumed once.
+        other = SysexData(other)
         check_data(other)
-        return self + SysexData(other)
+        return self + other
 
 
 class Message(BaseMessage):
@@ -141,7 +143,7 @@ class Message(BaseMessage):
             raise ValueError('copy must be same message type')
 
         if 'data' in overrides:
-            overrides['data'] = bytearray(overrides['data'])
+            overrides['data'] = tuple(overrides['data'])
 
         msgdict = vars(self).copy()
         msgdict.update(overrides)
@@ -209,11 +211,11 @@ class Message(BaseMessage):
                                  'attribute {}'.format(self.type,
                                                        name))
         else:
-            check_value(name, value)
             if name == 'data':
-                vars(self)['data'] = SysexData(value)
-            else:
-                vars(self)[name] = value
+                # Convert first so that iterators are only consumed once.
+                value = SysexData(value)
+            check_value(name, value)
+            vars(self)[name] = value
 
     __setattr__ = _setattr
 
